@@ -8,9 +8,9 @@ from vlib import NoVerdict, log
 HARNESS = {"csr/zz_verif_reqparam_test.go": os.path.join(vlib.HARNESS, "reqparam", "zz_verif_reqparam_test.go")}
 CFG = {
     "C14": dict(quick=["MCReqParam_c14"], thorough=["MCReqParam_c14"], spec="Spec14", strict="Strict14",
-                random=dict(quick=4000, thorough=120000)),
+                random=dict(quick=4000, thorough=120000), conc=dict(quick=(6, 500), thorough=(8, 5000)), hist=dict(quick=0, thorough=0)),
     "C15": dict(quick=["MCReqParam_c15q"], thorough=["MCReqParam_c15t", "MCReqParam_c15t4"], spec="Spec15", strict="Strict15",
-                random=dict(quick=6000, thorough=120000)),
+                random=dict(quick=6000, thorough=120000), conc=dict(quick=(6, 1500), thorough=(8, 10000)), hist=dict(quick=1500, thorough=20000)),
 }
 TRACE_CONSTANTS = 'CONSTANTS\n  LKeys = {"req"}\n  MaxFields = 0\n  IfVers = {7}\n'
 CHUNK = 9000
@@ -43,7 +43,7 @@ def vkey(e):
     if op == "reqparam":
         return "op=reqparam jk=%s pan=%s" % (e["cmd"]["jk"], str(e["res"]["pan"]).lower())
     if op == "rt":
-        return "op=rt fmt=%s" % ("json" if e["a"]["ifVer"] >= 7 else "legacy")
+        return "op=rt fmt=%s mode=%s" % ("json" if e["a"]["ifVer"] >= 7 else "legacy", e.get("mode", "seq"))
     if op == "decode":
         return "op=decode jk=%s dec=%s pan=%s" % (e["cmd"]["jk"], str(e["cmd"]["dec"]).lower(), str(e["res"]["pan"]).lower())
     return "op=%s" % op
@@ -127,7 +127,9 @@ def replay(prop, path):
     old = vlib.read_ndjson(path)
     binp = build(prop)
     wd = vlib.workdir(prop, "replay_run")
-    plan = {"prop": prop, "cases": [], "random": 0, "replays": [{"e": {"op": r["e"]["op"]}, "info": r.get("info")} for r in old if r.get("ev") == "step"]}
+    g, rounds = CFG[prop]["conc"]["quick"]
+    plan = {"prop": prop, "cases": [], "random": 0, "hist": 0, "conc": {"g": g, "rounds": rounds},
+            "replays": [{"e": {"op": r["e"]["op"]}, "info": r.get("info")} for r in old if r.get("ev") == "step"]}
     recs, summ = execute(prop, binp, wd, plan, "quick")
     verdict, drift = vlib.Verdict(prop), []
     judge(prop, verdict, recs, "replay", drift)
@@ -168,7 +170,8 @@ def run(prop, tier):
     zero = sorted(want - fired)
     if zero:
         raise NoVerdict("vacuous: actions %s walked no case" % zero)
-    plan = {"prop": prop, "cases": cases, "random": conf["random"][tier], "replays": []}
+    g, rounds = conf["conc"][tier]
+    plan = {"prop": prop, "cases": cases, "random": conf["random"][tier], "replays": [], "hist": conf["hist"][tier], "conc": {"g": g, "rounds": rounds}}
     recs, summ = execute(prop, binp, wd, plan, tier)
     steps = [x for x in recs if x.get("ev") == "step"]
     ncase = sum(1 for x in steps if (x.get("info") or {}).get("xok", "na") != "na")
@@ -195,6 +198,8 @@ def run(prop, tier):
            "rule": "every case of the bounded decision table exported by TLC is instantiated with concrete strings and run through the real functions; "
                    "distinct_nontrivial = distinct (input class, JSON reading, outcome) combinations observed; every recorded call (table cases and seeded free inputs) is judged by TLC with %s_Step" % prop,
            "table_cases_replayed": len(cases), "table_case_events": ncase, "free_input_events": nval - ncase,
+           "concurrent_events": sum(n for k, n in summ["classes"].items() if "conc" in k), "concurrent_goroutines": g,
+           "history_events": sum(n for k, n in summ["classes"].items() if "/hist/" in k),
            "successful_calls": summ.get("ok14"), "panics_observed": summ["pan"], "spec_drift": len(drift),
            "classes_observed": summ["classes"], "zero_coverage_actions": zero, "model_cfgs": conf[tier]}
     rc = verdict.finish()
